@@ -25,6 +25,8 @@ pub struct Worker {
     pub describe: Option<u64>,
     /// run exactly this case (the supervisor's second opinion on a suspected hang)
     pub only: Option<u64>,
+    begins: u64,
+    last_idx: Option<u64>,
     prog: *mut u64,
     proto: File,
     pub cap: crate::capture::Capture,
@@ -66,7 +68,7 @@ impl Worker {
         // Panics of the subject are caught and reported as records; keep
         // stderr quiet.
         std::panic::set_hook(Box::new(|_| {}));
-        Worker { shard, nshards, resume_after, describe, only, prog, proto, cap, stats: BTreeMap::new(), sets: BTreeMap::new(), last_stats: Instant::now() }
+        Worker { shard, nshards, resume_after, describe, only, begins: 0, last_idx: None, prog, proto, cap, stats: BTreeMap::new(), sets: BTreeMap::new(), last_stats: Instant::now() }
     }
 
     pub fn mine(&self, idx: u64) -> bool {
@@ -81,6 +83,25 @@ impl Worker {
 
     /// Publish the case about to be executed.
     pub fn begin(&mut self, idx: u64) {
+        // Memory hygiene: the engine under test leaks (reference cycles between solution nodes that
+        // a panic or an abandoned search leaves behind), and a thorough run executes 10^7 histories in
+        // one process.  A worker that has grown beyond the limit hands over to a fresh process
+        // between two cases: nothing is lost and nothing is counted twice.
+        self.begins += 1;
+        if self.begins % 512 == 0 && self.describe.is_none() && self.only.is_none() {
+            if let Some(last) = self.last_idx {
+                if rss_mb() > 2500 {
+                    unsafe {
+                        std::ptr::write_volatile(self.prog, NO_CASE);
+                    }
+                    self.flush_stats();
+                    self.write_sets();
+                    self.emit(json!({"t": "recycle", "after": last}));
+                    std::process::exit(0);
+                }
+            }
+        }
+        self.last_idx = Some(idx);
         unsafe {
             std::ptr::write_volatile(self.prog, idx);
             std::ptr::write_volatile(self.prog.add(1), std::ptr::read_volatile(self.prog.add(1)) + 1);
@@ -187,6 +208,8 @@ struct Slot {
     cpu_at_change: f64,
     cur_stats: BTreeMap<String, u64>,
     done: bool,
+    /// the worker asked to be replaced by a fresh process after this case
+    recycle_after: Option<i64>,
     finished: bool,
     resume_after: i64,
     stderr_tail: std::sync::Arc<std::sync::Mutex<String>>,
@@ -273,10 +296,16 @@ fn spawn(args: &[String], shard: usize, nshards: usize, resume_after: i64, dir: 
         cpu_at_change: 0.0,
         cur_stats: BTreeMap::new(),
         done: false,
+        recycle_after: None,
         finished: false,
         resume_after,
         stderr_tail,
     }
+}
+
+/// Resident set size of this process in MB.
+fn rss_mb() -> u64 {
+    std::fs::read_to_string("/proc/self/statm").ok().and_then(|s| s.split_whitespace().nth(1).and_then(|x| x.parse::<u64>().ok())).map_or(0, |pages| pages * 4096 / (1024 * 1024))
 }
 
 /// user + system CPU time of a process (and its threads) in seconds, from /proc.
@@ -419,6 +448,13 @@ pub fn run_sharded(args: &[String], nshards: usize, case_timeout: Duration, wall
                         let _ = std::fs::remove_file(&slot.prog_path);
                         continue;
                     }
+                    if let Some(after) = slot.recycle_after {
+                        merge(&mut out.stats, &slot.cur_stats);
+                        *out.stats.entry("supervisor.workers_recycled_for_memory".into()).or_insert(0) += 1;
+                        let _ = std::fs::remove_file(&slot.prog_path);
+                        *slot = spawn(args, si, nshards, after, &dir, extra_env);
+                        continue;
+                    }
                     died = Some(format!("worker exited with {} ; stderr tail: {}", status, slot.stderr_tail.lock().unwrap().trim()));
                 }
                 Ok(None) => {
@@ -453,7 +489,9 @@ pub fn run_sharded(args: &[String], nshards: usize, case_timeout: Duration, wall
                 // process, again fails to finish (twice the CPU limit, or ten times the wall limit):
                 // on an overloaded machine a worker can lose its time slice for longer than any
                 // fixed limit, and that is not a property of the code under test.
-                if kind == "hang" && confirmed_hangs < 3 {
+                // (the same second opinion for a worker that was killed from outside - SIGKILL is what
+                // the kernel's out-of-memory killer sends; the engine cannot send it to itself)
+                if (kind == "hang" || detail.contains("signal: 9")) && confirmed_hangs < 3 {
                     let second = rerun_alone(args, case_now, case_timeout, &dir, extra_env);
                     if second.is_none() {
                         confirmed_hangs += 1;
@@ -555,6 +593,7 @@ fn handle_line(l: &str, slot: &mut Slot, out: &mut Outcome) {
                 slot.cur_stats = m;
             }
             Some("done") => slot.done = true,
+            Some("recycle") => slot.recycle_after = v["after"].as_i64(),
             _ => out.records.push(v),
         },
         Err(_) => out.machinery_errors.push(format!("unparsable worker line: {}", l)),
